@@ -405,6 +405,8 @@ class HeaderExtensionObject(BaseObject):
                 "<16sQ", data[22 + datapos:22 + datapos + 24])
             if size < 1:
                 raise ASFHeaderError("invalid size in header extension")
+            if guid == HeaderExtensionObject.GUID:
+                raise ASFHeaderError("nested header extension")
             obj = BaseObject._get_object(guid)
             obj.parse(asf, data[22 + datapos + 24:22 + datapos + size])
             self.objects.append(obj)
